@@ -16,6 +16,12 @@ CHECKS = {
  "C15": ("exploration", "law monitor over an exhaustively paired/tripled boundary-value pool (runtime oracle on the real object API and scripts)",
          "Every law in the statement is evaluated on all ordered pairs and triples of a ~150-value boundary pool plus seed-determined random nested values and sort inputs; held on what was enumerated, not a proof over all values.",
          "Trusts Go's == on HashKey structs and the harness's classification of which lists are 'of one type'. NaN excluded as stated.", "DESIGN.md §5 C15"),
+ "C11": ("exploration", "reachability monitor by object identity over the configured globals + generated access attempts (every default name x every access path), differential against the default configuration",
+         "All ~246 default global names and module members are denied/overridden one by one (exhaustive over the live name set) and every access path is attempted through real evaluations; held on the configurations and paths explored.",
+         "Access-path list is finite (identifier, import forms, attribute, getattr, __module__ back-references, functions/closures/spawn/try, precompiled code); hook VerifAttrNames enumerates module attributes.", "DESIGN.md §5 C11"),
+ "C19": ("exploration", "differential monitor against the Go standard library over a completeness-checked wrapper table; round-trip/malformed-input monitor for codecs",
+         "Every wrapped function found in the live modules is called with generated boundary arguments through the object API and through scripts and compared with the Go function it wraps; codecs are round-tripped and fed malformed input. Held on the argument classes explored.",
+         "The function->Go mapping table is hand-written from the wrappers' source/docs; the run is inconclusive if a live function has no entry.", "DESIGN.md §5 C19"),
 }
 
 NOT_YET = {}
